@@ -348,6 +348,11 @@ func corruptAr(r *core.Rand, ms []arMember) []byte {
 		return b
 	case 6: // global magic damaged
 		b := buildAr(ms)
+		if r.Chance(1, 2) {
+			// the magic of a related format: GNU thin archives, AIX big / small archives, other spellings
+			copy(b, r.Pick([]string{"!<thin>\n", "<bigaf>\n", "<aiaff>\n", "!<arch>\r", "!<ARCH>\n", "!<arch> ", "!<arch>\x00"}))
+			return b
+		}
 		b[r.Intn(8)] ^= byte(1 << uint(r.Intn(8)))
 		return b
 	case 7: // random byte flips
